@@ -198,6 +198,20 @@ fn prover_case(out: &mut Out, label: &str, n: usize, t_stmt: usize, values: &[u6
         && (0..values.len().min(m)).all(|j| pr.pc_gens().commit(&Scalar::from(values[j]), &blind_w[j]).map(|c| c == commitments[j]).unwrap_or(false))
         && (0..values.len().min(m)).all(|j| promises[j].map(|p| p <= values[j]).unwrap_or(true));
     out.oracle("C06:ok-iff-valid", r.is_ok() == valid, &key, &format!("prover={} valid={}", r.is_ok(), valid));
+    // the other public entry point (`prove`, operating-system randomness) decides alike
+    {
+        let mut tr2 = merlin::Transcript::new(b"c06");
+        match std::panic::catch_unwind(std::panic::AssertUnwindSafe(|| fmrun::Proof::prove(&mut tr2, &stmt, &wit))) {
+            Err(_) => out.oracle("C06:no-panic", false, &key, "prover (entry point `prove`) panicked"),
+            Ok(r2) => {
+                out.oracle("C06:ok-iff-valid", r2.is_ok() == valid, &format!("{} entry=prove", key), &format!("prover={} valid={}", r2.is_ok(), valid));
+                if let Ok(proof) = &r2 {
+                    let v = fmrun::Proof::verify_batch(&mut [merlin::Transcript::new(b"c06")], &[stmt.clone()], &[proof.clone()], VerifyAction::VerifyOnly);
+                    out.oracle("C06:ok-verifies", v.is_ok(), &format!("{} entry=prove", key), "prover returned a proof that does not verify");
+                }
+            },
+        }
+    }
     if let Ok(proof) = &r {
         let v = fmrun::Proof::verify_batch(&mut [merlin::Transcript::new(b"c06")], &[stmt.clone()], &[proof.clone()], VerifyAction::VerifyOnly);
         out.oracle("C06:ok-verifies", v.is_ok(), &key, "prover returned a proof that does not verify");
